@@ -10,5 +10,6 @@ CONSTANTS
   WithAux = TRUE
   MinCalls = 0
   WithAsm = FALSE
+  WithRefusals = FALSE
 INVARIANTS WellFormedInv IndexExactInv ContentInv CrcInv StatsInv LiveStatsInv
 CHECK_DEADLOCK FALSE
